@@ -391,7 +391,12 @@ def checkformat_byteslike(byteslike: Any) -> BytesLike:
 
 def checkformat_natural_int(natural_int: Any) -> int:  # Annotated[int, ">= 1"]
     # Technically a TypeError or ValueError, depending, but meh.
-    if int(natural_int) != natural_int or natural_int < 1:
+    try:
+        is_natural = int(natural_int) == natural_int and natural_int >= 1
+    except ArithmeticError:
+        # e.g. OverflowError from int(float("inf")), or decimal.InvalidOperation
+        is_natural = False
+    if not is_natural:
         raise ValueError("Expected an integer >= 1.")
 
     return natural_int
@@ -665,12 +670,19 @@ def checkformat_delegation(delegation: Any) -> Delegation:
             "Delegation information must be a dictionary specifying "
             '"pubkeys" and "threshold" elements.'
         )
-    elif not (
-        set(delegation) == {"threshold", "pubkeys"}
-        and delegation["threshold"] >= 1
-        and isinstance(delegation["pubkeys"], list)
-        and all([is_hex_key(k) for k in delegation["pubkeys"]])
-    ):
+
+    try:
+        well_formed = (
+            set(delegation) == {"threshold", "pubkeys"}
+            and delegation["threshold"] >= 1
+            and isinstance(delegation["pubkeys"], list)
+            and all([is_hex_key(k) for k in delegation["pubkeys"]])
+        )
+    except ArithmeticError:
+        # e.g. decimal.InvalidOperation when comparing a Decimal NaN
+        well_formed = False
+
+    if not well_formed:
         raise ValueError(
             "Delegation information must be a dictionary specifying "
             'exactly two elements: "pubkeys" (assigned a list of '
